@@ -1,5 +1,7 @@
 package geom
 
+import "slices"
+
 const (
 	epsilon1    = 1e-3
 	epsilon2    = 1e-6
@@ -57,6 +59,9 @@ func tryfit(bz0 ctrlp, path []P, barriers []Segment) (ctrlp, bool) {
 }
 
 func curveContained(bz ctrlp, barriers []Segment) bool {
+	// parameters at which the curve touches the barriers without counting as a crossing: its own end points,
+	// and the points where it passes through the end point of a barrier
+	touches := []float64{0, 1}
 	for _, b := range barriers {
 		roots := curveIntersects(bz, b)
 		if roots == nil {
@@ -69,12 +74,51 @@ func curveContained(bz ctrlp, barriers []Segment) bool {
 			rp := bz.curvep(r)
 
 			if sqdistp(rp, b.A) < epsilon1 || sqdistp(rp, b.B) < epsilon1 {
+				touches = append(touches, r)
 				continue
 			}
 			return false
 		}
 	}
+	// between two touches the curve doesn't cross any barrier, so it stays on one side: that must be the inner side.
+	// Otherwise a curve could leave the polygon through a corner, or run outside between two points of the boundary.
+	// Several points are probed in each interval, because a crossing that falls exactly on a corner can go unnoticed,
+	// and a curve that slides along a barrier within tolerance is outside where the barrier turns away.
+	const probes = 8
+	slices.Sort(touches)
+	for i := 1; i < len(touches); i++ {
+		t0, t1 := touches[i-1], touches[i]
+		if t1-t0 < epsilon2 {
+			continue
+		}
+		for k := 1; k < probes; k++ {
+			if !insideBarriers(bz.curvep(t0+(t1-t0)*float64(k)/probes), barriers) {
+				return false
+			}
+		}
+	}
 	return true
+}
+
+// reports whether p lies inside the closed polygon made of the barriers, or within tolerance of one of them
+func insideBarriers(p P, barriers []Segment) bool {
+	inside := false
+	for _, b := range barriers {
+		// distance from the barrier
+		d := subp(b.B, b.A)
+		t := 0.0
+		if l := dotp(d, d); l > 0 {
+			t = max(0, min(1, dotp(subp(p, b.A), d)/l))
+		}
+		if sqdistp(p, addp(b.A, scalep(d, t))) < epsilon1 {
+			return true
+		}
+		// even-odd rule on a ray towards positive x
+		if (b.A.Y > p.Y) != (b.B.Y > p.Y) && p.X < b.A.X+(p.Y-b.A.Y)*(b.B.X-b.A.X)/(b.B.Y-b.A.Y) {
+			inside = !inside
+		}
+	}
+	return inside
 }
 
 func curveIntersects(bz ctrlp, seg Segment) (roots []float64) {
